@@ -472,3 +472,26 @@ package astisub
 //@   ensures [within-a-frame] (d - t) * fr < 1000000000 + fr
 //@   ensures [second-write] o2[0] == o[0] && o2[1] == o[1] && o2[2] == o[2] && o2[3] == o[3]
 //@ end
+
+//@ pure hmsRope(i time.Duration) = pad2(i / 3600000000000) ++ ":" ++ pad2(i % 3600000000000 / 60000000000) ++ ":" ++ pad2(i % 60000000000 / 1000000000)
+
+//@ func formatDurationSRT(i time.Duration) string
+//@   prop C16
+//@   requires 0 <= i && i < 360000000000000
+//@   ensures [srt] result == hmsRope(i) ++ "," ++ strpadleft(itoa(i % 1000000000 / 1000000), 48, 3)
+//@   assigns nothing
+//@ end
+
+//@ func formatDurationWebVTT(i time.Duration) string
+//@   prop C16
+//@   requires 0 <= i && i < 360000000000000
+//@   ensures [webvtt] result == hmsRope(i) ++ "." ++ strpadleft(itoa(i % 1000000000 / 1000000), 48, 3)
+//@   assigns nothing
+//@ end
+
+//@ func formatDurationSSA(i time.Duration) string
+//@   prop C16
+//@   requires 0 <= i && i < 360000000000000
+//@   ensures [ssa] result == hmsRope(i) ++ "." ++ strpadleft(itoa(i % 1000000000 / 10000000), 48, 2)
+//@   assigns nothing
+//@ end
